@@ -44,7 +44,8 @@ use quizx::phase::Phase;
 use quizx::scalar::{Dyadic, FromPhase, One, Scalar4, Sqrt2, Zero};
 use serde_json::{json, Value};
 use std::cmp::Ordering;
-use std::collections::BTreeMap;
+use std::collections::{BTreeMap, BTreeSet};
+use std::sync::Mutex;
 
 type Raw = (bool, bool, u64, i32);
 
@@ -64,6 +65,14 @@ impl Tally {
             c.count(&k, n);
         }
     }
+}
+
+/// Signatures already reported with a full witness: repeats are only counted (building the
+/// program listing for every one of 10^5 occurrences of a known defect would dominate the run).
+static SEEN: Mutex<BTreeSet<String>> = Mutex::new(BTreeSet::new());
+
+fn first_time(sig: &str) -> bool {
+    SEEN.lock().unwrap_or_else(|e| e.into_inner()).insert(sig.to_string())
 }
 
 // ------------------------------------------------------------------------------------
@@ -299,6 +308,10 @@ impl Prog {
 
     fn violation(&mut self, sig: &str, at: usize, detail: Value) {
         self.violated = true;
+        if !first_time(sig) {
+            ctx().violation(sig, self.family, self.index, Value::Null);
+            return;
+        }
         let mut d = detail;
         d["program"] = self.listing(at);
         d["failing_node"] = json!(at);
@@ -698,8 +711,18 @@ fn gen_const(r: &mut Rng, p: &mut Prog, base: ExpBase) {
         }
         Err(e) => {
             p.violated = true;
-            ctx().violation(&format!("{kind}|panic|{}", e.site()), p.family, p.index, json!({"constructor": op, "panic": e.text()}));
+            ctx().violation(&const_panic_sig(kind, &e), p.family, p.index, json!({"constructor": op, "panic": e.text()}));
         }
+    }
+}
+
+/// One root cause, one signature: every integer constructor goes through `Dyadic::new`, whose
+/// `-val` overflows for i64::MIN when overflow checks are on (debug builds).
+fn const_panic_sig(kind: &str, e: &Caught) -> String {
+    if e.text().contains("negate with overflow") {
+        "Dyadic::new|panic|attempt to negate with overflow|coefficient=i64::MIN".to_string()
+    } else {
+        format!("{kind}|panic|{}", e.site())
     }
 }
 
@@ -1074,6 +1097,10 @@ impl DProg {
         json!(self.nodes.iter().take(upto + 1).enumerate().map(|(i, n)| json!({"node": i, "op": n.op, "raw": raw_json(&n.raw), "model": format!("{}", n.model)})).collect::<Vec<_>>())
     }
     fn violation(&mut self, sig: &str, at: usize, detail: Value) {
+        if !first_time(sig) {
+            ctx().violation(sig, self.family, self.index, Value::Null);
+            return;
+        }
         let mut d = detail;
         d["program"] = self.listing(at);
         d["failing_node"] = json!(at);
@@ -1316,14 +1343,15 @@ fn dyadic_program(family: &'static str, index: u64, r: &mut Rng) {
                     match guarded(|| Dyadic::new(v, e)) {
                         Ok(d) => p.push(d, R::from_i64s([v, 0, 0, 0], e as i64), json!({"Dyadic::new": [v, e as i64]}), "new", false),
                         Err(pn) => {
-                            ctx().violation(&format!("Dyadic::new|panic|{}", pn.site()), family, index, json!({"args": [v, e as i64], "panic": pn.text()}));
+                            ctx().violation(&const_panic_sig("Dyadic::new", &pn), family, index, json!({"args": [v, e as i64], "panic": pn.text()}));
                         }
                     }
                 }
                 5 => {
                     let v = gen_mant(r);
-                    if let Ok(d) = guarded(|| Dyadic::from(v)) {
-                        p.push(d, R::from_i64s([v, 0, 0, 0], 0), json!({"Dyadic::from(i64)": v}), "from_i64", false);
+                    match guarded(|| Dyadic::from(v)) {
+                        Ok(d) => p.push(d, R::from_i64s([v, 0, 0, 0], 0), json!({"Dyadic::from(i64)": v}), "from_i64", false),
+                        Err(pn) => ctx().violation(&const_panic_sig("Dyadic::from(i64)", &pn), family, index, json!({"args": v, "panic": pn.text()})),
                     }
                 }
                 6 => {
@@ -1356,8 +1384,9 @@ fn dyadic_program(family: &'static str, index: u64, r: &mut Rng) {
                                             "in-window"
                                         };
                                         p.tally.add(&format!("dyadic-f64-roundtrip:err:{cls}"));
-                                        if x != 0.0 {
-                                            c.maximum("largest_small_float_refused_by_f64_try_from:-log2", if x.abs() < 1.0 { (-x.abs().log2()) as u64 } else { 0 });
+                                        if x != 0.0 && x.abs() < 1.0 {
+                                            // 2000 + floor(log2|x|) of the largest small float that did not round-trip
+                                            c.maximum("largest_small_float_refused_by_f64_try_from:2000+floor(log2|x|)", (2000.0 + x.abs().log2().floor()) as u64);
                                         }
                                     }
                                     Err(_) => {}
@@ -1440,16 +1469,22 @@ fn dyadic_program(family: &'static str, index: u64, r: &mut Rng) {
                 }
             }
             7 => {
-                if let Ok(d) = guarded(|| -x) {
-                    p.push(d, na.model.neg(), json!({"neg": a}), "neg", az);
-                    n_ops += 1;
+                match guarded(|| -x) {
+                    Ok(d) => {
+                        p.push(d, na.model.neg(), json!({"neg": a}), "neg", az);
+                        n_ops += 1;
+                    }
+                    Err(pn) => p.violation(&format!("Dyadic::neg|panic|{}", pn.site()), n - 1, json!({"operand": a, "panic": pn.text()})),
                 }
             }
             _ => {
-                if let Ok(d) = guarded(|| x.abs()) {
-                    let m = if na.model.c[0].is_negative() { na.model.neg() } else { na.model.clone() };
-                    p.push(d, m, json!({"abs": a}), "abs", az);
-                    n_ops += 1;
+                match guarded(|| x.abs()) {
+                    Ok(d) => {
+                        let m = if na.model.c[0].is_negative() { na.model.neg() } else { na.model.clone() };
+                        p.push(d, m, json!({"abs": a}), "abs", az);
+                        n_ops += 1;
+                    }
+                    Err(pn) => p.violation(&format!("Dyadic::abs|panic|{}", pn.site()), n - 1, json!({"operand": a, "panic": pn.text()})),
                 }
             }
         }
@@ -1553,7 +1588,7 @@ pub fn run() {
     c.assume("conversion Err is judged only when every non-zero coefficient lies in [2^-800, 2^900]; conversions of values above 2^1000 are not judged");
     let t = c.tier;
     par_cases("directed-edges", 1, |r, i| directed("directed-edges", i, r));
-    let (ns, nd) = t.pick((12_000usize, 12_000usize), (1_500_000usize, 1_500_000usize));
+    let (ns, nd) = t.pick((50_000usize, 50_000usize), (1_500_000usize, 1_500_000usize));
     par_cases("scalar4-programs", ns, |r, i| scalar_program("scalar4-programs", i, r));
     par_cases("dyadic-programs", nd, |r, i| dyadic_program("dyadic-programs", i, r));
     c.extra("exhaustive", json!(false));
